@@ -15,14 +15,14 @@ package gpbft
 //@   pure
 
 //@ func IsStrongQuorum
-//@   property C08
+//@   property C08 C01
 //@   requires 0 <= whole && whole <= 4611686018427387903
 //@   ensures result == strong(part, whole)
 //@   nooverflow
 //@   pure
 
 //@ func hasWeakQuorum
-//@   property C08
+//@   property C08 C01
 //@   requires 0 <= whole
 //@   ensures result ==> 3*part > whole
 //@   ensures 3*part > whole + 2 ==> result
@@ -36,7 +36,7 @@ package gpbft
 //@     && forall(ECChainKey(k), has(q.chainSupport, k) ==> 0 <= q.chainSupport[k].power && q.chainSupport[k].power <= q.sendersTotalPower)
 
 //@ func (*quorumState).CouldReachStrongQuorumFor
-//@   property C08
+//@   property C08 C01
 //@   requires tallyBounds(q)
 //@   ensures result == strong(supportOf(q, key) + (q.powerTable.ScaledTotal - q.sendersTotalPower)
 //@        + ite(withAdversary, q.powerTable.ScaledTotal / 3, 0), q.powerTable.ScaledTotal)
@@ -44,13 +44,13 @@ package gpbft
 //@   pure
 
 //@ func (*quorumState).ReceivedFromStrongQuorum
-//@   property C08
+//@   property C08 C01
 //@   requires tallyBounds(q)
 //@   ensures result == strong(q.sendersTotalPower, q.powerTable.ScaledTotal)
 //@   pure
 
 //@ func (*quorumState).ReceivedFromWeakQuorum
-//@   property C08
+//@   property C08 C01
 //@   requires tallyBounds(q)
 //@   ensures result ==> 3*q.sendersTotalPower > q.powerTable.ScaledTotal
 //@   pure
@@ -67,7 +67,7 @@ package gpbft
 //@   assert[overlap_exceeds_faulty] forall(mathint(f), ra && rb && 3*f < T ==> a + b - T > f)
 
 //@ lemma weak_quorum_facts
-//@   property C08
+//@   property C08 C01
 //@   vars p int64, T int64, w bool, s bool
 //@   assume 0 <= T && T <= 65535 && 0 <= p && p <= T
 //@   call w = hasWeakQuorum(p, T)
@@ -76,7 +76,7 @@ package gpbft
 //@   assert[complement_of_weak_not_strong] w ==> !s
 
 //@ lemma strong_threshold_exact
-//@   property C08
+//@   property C08 C01
 //@   vars p int64, T int64, s bool, s1 bool
 //@   assume 0 <= T && T <= 65535 && 1 <= p && p <= T
 //@   call s = IsStrongQuorum(p, T)
@@ -210,7 +210,7 @@ package gpbft
 // The verdict nil is reached in two ways only: the cache says this exact message (its full CBOR, in the namespace of
 // its kind, in its instance's group) was accepted before; or every rule of the property held in this call.
 //@ func (*cachingValidator).validateMessageWithVoteValueKey
-//@   property C05 C13 C03
+//@   property C05 C13 C03 C01 C02
 //@   modifies auto
 //@   maypanic
 //@   opaque Get
@@ -261,7 +261,7 @@ package gpbft
 // A justification is accepted only with a strong quorum of the committee's scaled power behind it and an aggregate
 // signature that verifies, for exactly the listed signers, over the justification's vote bound to the expected value.
 //@ func (*cachingValidator).validateJustificationSignature
-//@   property C05 C13 C03
+//@   property C05 C13 C03 C01
 //@   requires comt != nil && tblOK(comt.PowerTable) && justif != nil && ssumDef(comt.PowerTable.ScaledPower, justif.Signers)
 //@   modifies auto
 //@   maypanic
@@ -277,7 +277,7 @@ package gpbft
 // for bottom or PREPARE for the same value from the previous round; COMMIT by PREPARE for the same value in the same
 // round; DECIDE by COMMIT for the same value (any round).
 //@ func (*cachingValidator).validateJustification
-//@   property C05 C13 C03
+//@   property C05 C13 C03 C01
 //@   harness harness/validator_sentinel_round_test.go
 //@   requires msg != nil && comt != nil && tblOK(comt.PowerTable) && (msg.Justification != nil ==> ssumDef(comt.PowerTable.ScaledPower, msg.Justification.Signers))
 //@   requires !((msg.Vote.Phase == CONVERGE_PHASE || msg.Vote.Phase == PREPARE_PHASE) && msg.Vote.Round == 0)
@@ -378,7 +378,7 @@ package gpbft
 // The quorum handed out for a key: table indices in increasing order, all inside the table, one stored signature per
 // index, and the scaled power of exactly these indices is a strong quorum of the table's total.
 //@ func (*quorumState).FindStrongQuorumFor
-//@   property C03
+//@   property C03 C01
 //@   requires q.powerTable != nil && tblOK(q.powerTable) && lookupOK(q.powerTable)
 //@   modifies auto
 //@   maypanic
@@ -412,7 +412,7 @@ package gpbft
 // A decision is reported only from a strong quorum of DECIDE votes: the value with a strong quorum, the minimal quorum
 // for that value's key out of the DECIDE tally, and a justification for round 0 of the DECIDE step.
 //@ func (*instance).tryDecide
-//@   property C03
+//@   property C03 C01 C02
 //@   requires i.decision != nil && i.decision.powerTable != nil && tblOK(i.decision.powerTable) && lookupOK(i.decision.powerTable)
 //@   modifies auto
 //@   maypanic
@@ -423,7 +423,7 @@ package gpbft
 //@     before[quorum_is_the_decide_tallys_for_the_key_of_that_value] res(FindStrongQuorumValue, 1, 1) && res(FindStrongQuorumFor, 1, 1) && argOf(FindStrongQuorumFor, 1, 0) == i.decision && argOf(FindStrongQuorumValue, 1, 0) == i.decision && argOf(FindStrongQuorumFor, 1, 1) == res(Key, 1) && argOf(Key, 1, 0) == res(FindStrongQuorumValue, 1, 0)
 
 //@ func (*instance).terminate
-//@   property C03
+//@   property C03 C02
 //@   modifies auto
 //@   maypanic
 //@   ensures[the_decision_is_recorded_as_given] i.terminationValue == decision && i.value == old(decision.Vote.Value) && i.current.Phase == TERMINATED_PHASE
@@ -456,7 +456,7 @@ package gpbft
 // ---- C07: protocol discipline of an honest participant ----
 
 //@ func (*instance).addCandidate
-//@   property C07
+//@   property C07 C02
 //@   modifies auto
 //@   ensures[the_chain_is_a_candidate_afterwards_and_no_candidate_is_lost] has(i.candidates, res(Key, 1)) && argOf(Key, 1, 0) == c && forall(ECChainKey(k), old(has(i.candidates, k)) ==> has(i.candidates, k), trigger(has(i.candidates, k)))
 //@   ensures[reports_whether_it_was_new] result == !old(has(i.candidates, res(Key, 1)))
@@ -464,7 +464,7 @@ package gpbft
 // Every proper prefix of the chain (two tipsets and up, the chain itself included) becomes a candidate: the loop visits
 // every length from Len-1 down to 1 and hands each prefix to addCandidate.
 //@ func (*instance).addCandidatePrefixes
-//@   property C07
+//@   property C07 C02
 //@   harness harness/gpbft_candidate_prefixes_test.go
 //@   modifies auto
 //@   at addCandidate 1
@@ -479,7 +479,7 @@ package gpbft
 // The value adopted after QUALITY: the input itself if it has a strong quorum, else the longest prefix that has one
 // (prefixes are tried longest first and the first hit is returned), else the base.
 //@ func (*quorumState).FindStrongQuorumValueForLongestPrefixOf
-//@   property C07
+//@   property C07 C02
 //@   modifies auto
 //@   maypanic
 //@   at return 1
@@ -494,7 +494,7 @@ package gpbft
 //@     invariant i <= res(Len, 1) - 1
 
 //@ func (*instance).tryQuality
-//@   property C07
+//@   property C07 C02
 //@   modifies auto
 //@   maypanic
 //@   at beginPrepare 1
@@ -519,7 +519,7 @@ package gpbft
 // justification; bottom is committed only without either, and then only if the quorum has become impossible or the
 // timeout has passed with a strong quorum of senders heard.
 //@ func (*instance).tryPrepare
-//@   property C07
+//@   property C07 C01
 //@   modifies auto
 //@   maypanic
 //@   opaque tryRebroadcast
@@ -546,7 +546,7 @@ package gpbft
 //@     before[exactly_one_broadcast] dominatedBy(broadcast, 1)
 
 //@ func (*instance).beginCommit
-//@   property C07
+//@   property C07 C01
 //@   requires i.current.Phase == PREPARE_PHASE
 //@   modifies auto
 //@   maypanic
@@ -561,7 +561,7 @@ package gpbft
 //@     before[exactly_one_broadcast] dominatedBy(broadcast, 1)
 
 //@ func (*instance).beginDecide
-//@   property C07
+//@   property C07 C01 C02
 //@   requires i.current.Phase != DECIDE_PHASE && i.current.Phase != TERMINATED_PHASE
 //@   modifies auto
 //@   maypanic
@@ -575,7 +575,7 @@ package gpbft
 //@     before[exactly_one_broadcast] dominatedBy(broadcast, 1)
 
 //@ func (*instance).skipToDecide
-//@   property C07
+//@   property C07 C01
 //@   requires i.current.Phase != DECIDE_PHASE && i.current.Phase != TERMINATED_PHASE
 //@   modifies auto
 //@   maypanic
@@ -623,7 +623,7 @@ package gpbft
 //@     before[converge_is_begun] dominatedBy(beginConverge, 1)
 
 //@ func (*instance).skipToRound
-//@   property C07
+//@   property C07 C02
 //@   requires round > i.current.Round
 //@   modifies auto
 //@   maypanic
@@ -638,7 +638,7 @@ package gpbft
 // power); the winner becomes proposal and value, a non-candidate winner becomes a candidate, and PREPARE starts with
 // the winner's justification.
 //@ func (*instance).tryConverge
-//@   property C07
+//@   property C07 C01 C02
 //@   modifies auto
 //@   maypanic
 //@   opaque tryRebroadcast, log, FindBestTicketProposal
@@ -651,7 +651,7 @@ package gpbft
 
 // The admissibility filter of CONVERGE values.
 //@ func (*instance).tryConverge$1
-//@   property C07
+//@   property C07 C01 C02
 //@   requires commitRoundState != nil && commitRoundState.powerTable != nil && tallyBounds(commitRoundState)
 //@   modifies auto
 //@   maypanic
@@ -666,7 +666,7 @@ package gpbft
 // and COMMIT phase: next round on a strong quorum or proof for bottom; after the timeout with a strong quorum of
 // senders, sway to the committed value seen and go to the next round.
 //@ func (*instance).tryCommit
-//@   property C07
+//@   property C07 C01 C02
 //@   requires i.current.Phase != DECIDE_PHASE && i.current.Phase != TERMINATED_PHASE
 //@   modifies auto
 //@   maypanic
@@ -682,7 +682,7 @@ package gpbft
 // that is bottom or starts at this instance's base, and the instance has not terminated; each step's vote goes to the
 // tally of its own round and step.
 //@ func (*instance).receiveOne
-//@   property C07 C02
+//@   property C07 C02 C01
 //@   modifies auto
 //@   maypanic
 //@   opaque tryCurrentPhase, updateCandidatesFromQuality, ReceiveEachPrefix, Receive, ReceiveJustification, isSpammable, HasBase
